@@ -40,10 +40,14 @@ PREFIXES = [
 PREFIX_DEPTH = {'quick': 5, 'thorough': 7}
 
 
-def cfg_for(retry, defer=False):
+def cfg_for(retry, defer=False, md5=None):
     c = dict(time_opts={'connect_retry_time': retry})
     if defer:
         c['defer_close'] = True
+    if md5:
+        # TCP MD5 signature configured: the option is set on the connecting socket; 'refused' = the kernel rejects it
+        c['bgp_opts'] = {'md5': 'k' * 100 if md5 == 'refused' else 'secret'}
+        c['setsockopt_fails'] = md5 == 'refused'
     return c
 
 
@@ -56,6 +60,9 @@ def plan(tier, seed):
         if retry in (10, 30):
             for p in range(PARTS[tier]):
                 shards.append(dict(kind='bfs', retry=retry, part=p, nparts=PARTS[tier], d0=d0, depth=d, budget=BUDGET[tier], defer=True))
+    for md5 in ('set', 'refused'):
+        for retry in (10, 30):
+            shards.append(dict(kind='bfs', retry=retry, part=0, nparts=1, d0=d0, depth=d - 2, budget=BUDGET[tier], md5=md5))
     for i, pre in enumerate(PREFIXES):
         for retry in (10, 30):
             shards.append(dict(kind='bfs', retry=retry, part=0, nparts=1, d0=1, depth=PREFIX_DEPTH[tier], budget=BUDGET[tier],
@@ -72,7 +79,7 @@ def plan(tier, seed):
 
 def run_shard(sh):
     res = dict(evaluations=0, counters={}, maxima={}, sets={}, distinct=[], samples=[], violations=[])
-    cfg = cfg_for(sh['retry'], sh.get('defer', False))
+    cfg = cfg_for(sh['retry'], sh.get('defer', False), sh.get('md5'))
     stats = dict(max_live=0, attempts=0, late=0, finals=0, writes=0)
 
     def note(r):
